@@ -28,7 +28,8 @@ pub struct P;
 fn far_seg() -> BoxedStrategy<Seg> {
     // copies at distances just inside / just beyond each declarable window, up to 32 KiB
     let d: Vec<u32> = vec![255, 256, 257, 300, 511, 512, 513, 1023, 1024, 1025, 2047, 2048, 2049, 3000, 4095, 4096, 4097, 5000, 8191, 8192, 8193, 12000, 16383, 16384, 16385, 20000, 32767, 32768];
-    (prop_oneof![3 => proptest::sample::select(d), 1 => 1u32..=32768], prop_oneof![3 => 3u32..=40, 2 => 20u32..=600, 1 => size(20000)]).prop_map(|(dist, len)| Seg::CopyBack { dist, len }).boxed()
+    let just_beyond = (proptest::sample::select(vec![256u32, 512, 1024, 2048, 4096, 8192, 16384]), 1u32..=48).prop_map(|(w, k)| w + k);
+    (prop_oneof![3 => proptest::sample::select(d), 2 => just_beyond, 1 => 1u32..=32768], prop_oneof![3 => 3u32..=40, 2 => 20u32..=600, 1 => size(20000)]).prop_map(|(dist, len)| Seg::CopyBack { dist, len }).boxed()
 }
 
 impl Prop for P {
@@ -55,7 +56,36 @@ impl Prop for P {
             v
         });
         let data = (segs, proptest::bool::weighted(0.3)).prop_map(|(segs, twice)| Recipe { segs, twice });
-        (data, prop_oneof![5 => 0u8..=10, 1 => 11u8..=12], 0u8..=4, prop_oneof![8 => 8u8..=15, 1 => 0u8..=7, 1 => Just(16u8)], schedule(3)).prop_map(|(data, level, strategy, wbits, sched)| Case { data, level, strategy, wbits, sched }).boxed()
+        // half of the schedules are aligned with the segment boundaries (one call per segment, each with
+        // its own flush mode), so that a flush falls exactly between "old data" and its far repeat
+        let aligned = proptest::collection::vec((prop_oneof![4 => Just(0u8), 3 => Just(2u8), 1 => Just(3u8), 1 => Just(1u8), 1 => Just(7u8)], prop_oneof![1 => 1u32..=3, 3 => Just(u32::MAX)]), 8);
+        (data, prop_oneof![5 => 0u8..=10, 1 => 11u8..=12], 0u8..=4, prop_oneof![8 => 8u8..=15, 1 => 0u8..=7, 1 => Just(16u8)], schedule(3), proptest::option::weighted(0.5, aligned))
+            .prop_map(|(data, level, strategy, wbits, mut sched, aligned)| {
+                if let Some(al) = aligned {
+                    let mut steps = Vec::new();
+                    let mut tmp = Vec::new();
+                    for (i, sg) in data.segs.iter().enumerate() {
+                        let before = tmp.len();
+                        sg.append(&mut tmp);
+                        let n = (tmp.len() - before) as u32;
+                        let (fl, piece) = al[i % al.len()];
+                        if piece == u32::MAX || n <= piece {
+                            steps.push(crate::gen::config::Step { in_take: n, out_size: 1 << 20, flush: fl });
+                        } else {
+                            // the segment in tiny flushed writes
+                            let mut left = n;
+                            while left > 0 && steps.len() < 4000 {
+                                let k = left.min(piece);
+                                steps.push(crate::gen::config::Step { in_take: k, out_size: 1 << 20, flush: fl });
+                                left -= k;
+                            }
+                        }
+                    }
+                    sched.steps = steps;
+                }
+                Case { data, level, strategy, wbits, sched }
+            })
+            .boxed()
     }
     fn check(case: &Case, cx: &mut Ctx) -> Check {
         let x = case.data.expand();
